@@ -11,7 +11,7 @@ M0, M1, M2, M3 = -1, -2, -3, -4
 def parse(case):
     sec = case.split("|")
     head = sec[0].split()
-    pl, ld = int(head[1]), int(head[2])
+    pl, ld = int(head[1]), int(head[2])      # head[0] is L or Lq
     files = [tuple(int(x) for x in t.split(",")[:3]) + (t.endswith(",p"),) for t in sec[1].split()]
     rs = dict(t.split("=", 1) for t in sec[2].split())
     bad = [int(t) for t in sec[3].split() if t != "-"]
@@ -72,7 +72,7 @@ def model_branches(case, full):
     """which branches of the model's load / load_file / load_bitfield / load_unc a case takes (derived from the case
     and the implementation's outcome, which equals the model's when the correspondence holds)"""
     out = set()
-    if not case.startswith("L "):
+    if not (case.startswith("L ") or case.startswith("Lq ")):
         return out
     pl, ld, files, rs, bad = parse(case)
     f = dict(t.split("=", 1) for t in full.replace(" || ", " ").split() if "=" in t)
@@ -242,7 +242,7 @@ def gen_l(r, stats, malformed):
             rs["bf"] = "S" + "ff" * nb      # padding bits set in the saved string
     else:
         stats["honest"] += 1
-    return "L %d %d | %s | %s | %s" % (pl, ld, " ".join(("%d,%d,%d" % f[:3]) + (",p" if f[3] else "") for f in files),
+    return "%s %d %d | %s | %s | %s" % (r.choice(["L", "L", "Lq"]), pl, ld, " ".join(("%d,%d,%d" % f[:3]) + (",p" if f[3] else "") for f in files),
                                        " ".join("%s=%s" % kv for kv in rs.items()),
                                        " ".join(map(str, bad)) or "-")
 
@@ -252,7 +252,7 @@ def gen_t(r, stats):
     a loss set inside the uncertain window, per-file perturbations"""
     pl = r.choice([1025, 2048])
     nf = r.randint(1, 3)
-    lens = [r.choice([pl, 2 * pl, 4 * pl, r.randint(1, 3 * pl)]) for _ in range(nf)]
+    lens = [r.choice([pl, 2 * pl, 4 * pl, r.randint(1, 3 * pl), r.randint(12, 200)]) for _ in range(nf)]
     if r.random() < 0.5 and nf > 1:
         lens[1] = lens[0]
     np_ = (sum(lens) + pl - 1) // pl
@@ -313,12 +313,35 @@ def gen_t(r, stats):
                         ["close", "openonly", "save"], ["close", "openonly", "save", "finishcheck", "save"]])
         pert = some_perts(False) if "start" in ops else some_perts(True)
         stats["t_other"] += 1
-    return "T %d %s | %s | %s | %s%s" % (pl, " ".join(map(str, lens)), ",".join(map(str, missing)) or "-", " ".join(ops),
+    # some data files are symbolic links to the real file (stat must follow them); short ones get a link text exactly as
+    # long as the file
+    lens_s = []
+    for k, l in enumerate(lens):
+        if r.random() < 0.15:
+            stats["t_symlinked_file"] += 1
+            lens_s.append("%ds" % l)
+        else:
+            lens_s.append(str(l))
+    return "%s %d %s | %s | %s | %s%s" % (r.choice(["T", "T", "Tq"]), pl, " ".join(lens_s), ",".join(map(str, missing)) or "-", " ".join(ops),
                                          " ".join(pert), (" lose=" + ",".join(map(str, lose))) if lose else "")
 
 
 # the recorded known finding (class resume-active-rewrite-not-detected): saved while active -> mtime ~3 -> a later
 # same-size rewrite of a file outside the uncertain set is not noticed
+# symlinked data files (incl. link text as long as the file), the rtorrent-style check, > 1024 completions in the window
+T_HAND = [
+    "T 2048 8192s 8192 | - | save | = =",
+    "T 2048 8192s 8192 | - | save | W =",
+    "T 2048 4096 40s 4000 | - | save | = W =",
+    "Tq 2048 4096 40s 4000 | - | save | = W =",
+    "T 2048 4096 100s 100s | - | save | = = W",
+    "T 2048 4096s 4096 | 1 | start dl stop save | = = lose=1",
+    "Tq 2048 8192 8192 | - | save | = D",
+    "Tq 2048 8192 8192 8192 | - | save | D = D",
+    "Tq 2048 8192 8192 | - | save | D D",
+    "T 1025 1127500 | * | start dl stop save | = lose=%7",
+]
+
 KNOWN_FINDING_CASES = [
     "T 2048 8192 8192 | 2 | start save | = W",
     "T 2048 8192 8192 | 2 | start adv5 save | W =",
@@ -349,7 +372,7 @@ OPEN_DEFECT_WITNESSES = [
 def gen(seed, tier):
     r = random.Random(seed * 104729 + 10)
     keys = ["file_missing", "file_intact", "file_resized", "file_padding", "malformed", "honest", "corpus", "hand", "regression", "known_finding",
-            "t_stopped_complete", "t_download_then_save", "t_active_partial", "t_two_rounds", "t_other"]
+            "t_stopped_complete", "t_download_then_save", "t_active_partial", "t_two_rounds", "t_other", "t_symlinked_file", "t_many_completions"]
     stats = {k: 0 for k in keys}
     cases = []
     cdir = os.path.join(os.path.dirname(os.path.dirname(os.path.abspath(__file__))), "corpus", "C10")
@@ -364,6 +387,11 @@ def gen(seed, tier):
         cases.append(h); stats["regression"] += 1
     for h in KNOWN_FINDING_CASES:
         cases.append(h); stats["known_finding"] += 1
+    for h in T_HAND:
+        cases.append(h); stats["hand"] += 1
+    if tier != "quick":
+        for k in (3, 11):
+            cases.append("Tq 1025 1230000 | * | start dl stop save | = lose=%%%d" % k); stats["t_many_completions"] += 1
     n = 1500 if tier == "quick" else 15000
     for _ in range(n):
         cases.append(gen_l(r, stats, malformed=False))
@@ -385,7 +413,7 @@ def oracle(case, full):
         return []
     f = dict(t.split("=", 1) for t in full.replace(" || ", " ").split() if "=" in t)
     bad = []
-    if case.startswith("T "):
+    if case.startswith("T ") or case.startswith("Tq "):
         if f.get("sound") != "1":
             sec = case.split("|")
             pert = [x for x in sec[3].split() if not x.startswith("lose=")]
@@ -396,6 +424,15 @@ def oracle(case, full):
                             % (f.get("bits"), f.get("ssl"))))
             else:
                 bad.append(("resume-unsound", "after save / crash / perturbation / load / check a set piece is not valid on disk: bits=%s valid=%s" % (f.get("bits"), f.get("ssl"))))
+        # untouched, fully synced files keep their progress WITHOUT rehashing: nothing but the uncertain pieces is rechecked
+        sec = case.split("|")
+        pert = [x for x in sec[3].split() if not x.startswith("lose=")]
+        saved = f.get("saved", "-")
+        if saved != "-" and set(saved) == {"R"} and all(p == "=" for p in pert):
+            unc = set() if f.get("unc", "none") in ("none", "empty") else set(int(x) for x in f["unc"].split("!")[0].split(",") if x)
+            extra = [i for i, ch in enumerate(f.get("load_ranges", "")) if ch == "1" and i not in unc]
+            if extra:
+                bad.append(("resume-progress-lost", "no file was touched and all were saved with their mtime, yet pieces %s are queued for rehashing" % extra[:8]))
         return bad
     pl, ld, files, rs, badp = parse(case)
     np_ = (sum(x[0] for x in files) + pl - 1) // pl
